@@ -5,7 +5,9 @@ One real run -> (protocol line for the model, canonical real output string).
 Also direct evaluation of the C04 hygiene predicates on real output files.
 """
 from __future__ import annotations
+import os
 import re
+import subprocess
 from decimal import Decimal
 from typing import Dict, List, Optional, Set, Tuple
 
@@ -30,6 +32,54 @@ def canonical_pool(case: gen_ref.Case, **kw) -> Set[str]:
         _g, _a, _p, canonical = cli_common.load_references(
             args=args, invalid_protein_as_noncoding=False, cleavage_params=cp)
     return set(canonical)
+
+
+def proteome_entries(case: gen_ref.Case) -> List[Tuple[str, str, bool]]:
+    """(transcript id, protein sequence, cds_start_NF) read from the case's proteome FASTA and
+    GTF *text* — no moPepGen reader involved."""
+    nf = set()
+    for ln in open(case.gtf):
+        f = ln.rstrip('\n').split('\t')
+        if len(f) < 9 or f[2] != 'transcript':
+            continue
+        tags = [a.strip().split(' ', 1)[1].strip('"') for a in f[8].split(';')
+                if a.strip().startswith('tag ')]
+        if 'cds_start_NF' in tags:
+            tx = gen_ref._gtf_attr(f[8], 'transcript_id')
+            nf.add(tx)
+    out = []
+    for block in open(case.proteome).read().split('>')[1:]:
+        hdr, _, seq = block.partition('\n')
+        tx = hdr.split('|')[1]
+        out.append((tx, ''.join(seq.split()), tx in nf))
+    return out
+
+
+def lean_canonical_pool(case: gen_ref.Case, cleavage_rule: str = 'trypsin', miscleavage: int = 2,
+                        min_mw: float = 500., min_length: int = 7, max_length: int = 25,
+                        cleavage_exception: Optional[str] = None, **_ignored) -> Optional[Set[str]]:
+    """The canonical pool from the LEAN model of the digest (`peptidePool`, Model/Digest.lean;
+    proved equal to the positional definition in Props/C10) evaluated by the native driver on
+    the proteome text + cds_start_NF flags: a judge of "is canonical" that does not come from
+    the code under test.  None when the driver is unavailable / the model rejects the proteome."""
+    exc = cleavage_exception
+    if exc == 'auto':
+        exc = 'trypsin_exception' if cleavage_rule == 'trypsin' else None
+    ents = proteome_entries(case)
+    enc = ';'.join(f'{int(nf)}:{seq}' for _tx, seq, nf in ents)
+    line = '\t'.join(['C10', 'pool', cleavage_rule, exc or '-', str(int(miscleavage)),
+                      str(mw_int(min_mw)), str(int(min_length)), str(int(max_length)), enc])
+    if not os.path.exists(common.DRIVER):
+        return None
+    try:
+        p = subprocess.run([common.DRIVER], input=line + '\n', capture_output=True, text=True,
+                           timeout=300)
+    except (OSError, subprocess.TimeoutExpired):
+        return None
+    out = p.stdout.split('\n')
+    if p.returncode != 0 or not out or out[0].startswith(('crash:', 'bad-')):
+        return None
+    return {x for x in out[0].split(',') if x}
 
 
 def units_by_tx(trace: List[dict]) -> Dict[str, List[Tuple[str, Dict[str, List[str]]]]]:
@@ -148,8 +198,10 @@ def real_line(struct: Structure, run: gen_ref.RunResult, lab: Dict[str, int]) ->
 
 
 def hygiene_violations(run: gen_ref.RunResult, canon: Set[str], limits: Tuple[float, int, int],
-                       check_table: bool = True) -> List[str]:
-    """C04 predicates evaluated directly on real output files."""
+                       check_table: bool = True, canon_model: Optional[Set[str]] = None
+                       ) -> List[str]:
+    """C04 predicates evaluated directly on real output files.  `canon` is the pool the command
+    itself loads, `canon_model` the pool of the Lean digest model on the same proteome."""
     from Bio.SeqUtils import molecular_weight
     min_mw, min_len, max_len = limits
     out = []
@@ -161,8 +213,9 @@ def hygiene_violations(run: gen_ref.RunResult, canon: Set[str], limits: Tuple[fl
             continue
         if seq in canon:
             out.append(f'sequence {seq} is in the canonical pool')
-        if seq.replace('I', 'L') in canon and False:
-            pass
+        elif canon_model is not None and seq in canon_model:
+            out.append(f'sequence {seq} is a canonical peptide (digest model of the proteome, Lean '
+                       f'peptidePool) but is missing from the pool the command filters with')
         if not (min_len <= len(seq) <= max_len):
             out.append(f'sequence {seq} length {len(seq)} outside [{min_len},{max_len}]')
         try:
